@@ -568,3 +568,28 @@ package engine
 //@   calls k atmost 1
 //@   onk[holds] e1 == nil && e2 == nil && numLe(v2, v1)
 //@   nok[fails] e1 == nil && e2 == nil ==> !numLe(v2, v1)
+
+//@ ---------------------------------------------------------------- choice-point stack (C03, C04)
+
+//@ spec fun sameStack(s *promiseStack) bool = true
+
+//@ func (*promiseStack).pop
+//@   property C03 C04
+//@   requires s != nil && len(*s) > 0
+//@   modifies *s, elems(*s)
+//@   ensures[top] result == old((*s)[len(*s) - 1])
+//@   ensures[len] len(*s) == old(len(*s)) - 1
+//@   ensures[same-array] backing(*s) == old(backing(*s)) && offset(*s) == old(offset(*s))
+//@   ensures[prefix] forall j int :: 0 <= j && j < len(*s) ==> (*s)[j] == old((*s)[j])
+
+//@ func (*promiseStack).popUntil
+//@   property C03
+//@   requires s != nil
+//@   modifies *s, elems(*s)
+//@   loop 1 invariant len(*s) <= old(len(*s)) && backing(*s) == old(backing(*s)) && offset(*s) == old(offset(*s))
+//@   loop 1 invariant forall j int :: 0 <= j && j < len(*s) ==> (*s)[j] == old((*s)[j])
+//@   loop 1 invariant forall j int :: len(*s) <= j && j < old(len(*s)) ==> old((*s)[j]) != p
+//@   ensures[prefix] len(*s) <= old(len(*s)) && forall j int :: 0 <= j && j < len(*s) ==> (*s)[j] == old((*s)[j])
+//@   ensures[since] (exists i int :: 0 <= i && i < old(len(*s)) && old((*s)[i]) == p) ==>
+//@       len(*s) < old(len(*s)) && old((*s)[now(len(*s))]) == p && forall j int :: len(*s) < j && j < old(len(*s)) ==> old((*s)[j]) != p
+//@   ensures[nothing-older] (forall i int :: 0 <= i && i < old(len(*s)) ==> old((*s)[i]) != p) ==> len(*s) == old(len(*s))
